@@ -6,7 +6,15 @@ use crate::report::{self, Report, Violation};
 use serde_json::json;
 use std::collections::{BTreeMap, BTreeSet};
 
-const FORMS: [&str; 9] = ["use-single", "use-group", "use-nested-group", "use-glob", "qualified-path", "qualified-nested-path", "use-crate", "use-super", "use-self"];
+const FORMS: [&str; 13] = [
+    "use-single", "use-group", "use-nested-group", "use-glob", "qualified-path", "qualified-nested-path", "use-crate", "use-super", "use-self",
+    // the target as a generic argument of a type of a third crate
+    "qualified-generic-of-qualified", "qualified-generic-of-used", "used-generic-of-qualified", "qualified-generic-of-nested-qualified",
+];
+
+fn third_crate(form: &str) -> bool {
+    form.contains("generic-of")
+}
 const POSITIONS: [&str; 3] = ["field", "vec", "variant-payload"];
 
 #[derive(Clone, Debug)]
@@ -38,6 +46,10 @@ fn workspace(c: &Case) -> Vec<(String, String)> {
         "use-glob" => (format!("use {tc}::*;\n"), "Target".to_string()),
         "qualified-path" => (String::new(), format!("{tc}::Target")),
         "qualified-nested-path" => (String::new(), format!("{tc}::inner::deep::Target")),
+        "qualified-generic-of-qualified" => (String::new(), format!("shapes::Page<{tc}::Target>")),
+        "qualified-generic-of-used" => (format!("use {tc}::Target;\n"), "shapes::Page<Target>".to_string()),
+        "used-generic-of-qualified" => ("use shapes::Page;\n".to_string(), format!("Page<{tc}::Target>")),
+        "qualified-generic-of-nested-qualified" => (String::new(), format!("shapes::inner::Page<Option<{tc}::deep::Target>>")),
         "use-crate" => ("use crate::m::Target;\n".to_string(), "Target".to_string()),
         "use-super" => ("use super::Target;\n".to_string(), "Target".to_string()),
         _ => ("use self::m::Target;\n".to_string(), "Target".to_string()),
@@ -64,6 +76,9 @@ fn workspace(c: &Case) -> Vec<(String, String)> {
     }
     if c.homonym {
         files.push(("ws/zz-other/src/lib.rs".to_string(), "#[typeshare]\npub struct Target { pub other_crate: bool }\n".to_string()));
+    }
+    if third_crate(c.form) {
+        files.push(("ws/shapes/src/lib.rs".to_string(), "#[typeshare]\npub struct Page<T> { pub items: Vec<T>, pub total: u32 }\n".to_string()));
     }
     files
 }
